@@ -71,14 +71,14 @@ PROPS = {}
 
 PROPS["C04"] = {
     "translators": ["consts", "tower"],
-    "lean_targets": ["JediVerif.Properties.C04"] + targets_if_exist("JediVerif.Properties.C04b", "JediVerif.Properties.C04c"),
+    "lean_targets": ["JediVerif.Properties.C04"] + targets_if_exist("JediVerif.Properties.C04b", "JediVerif.Properties.C04c", "JediVerif.Properties.C04d"),
     "theorems": lambda: tower_theorems({"spec"}) + [(t, "JediVerif.Properties.C04") for t in C04_THEOREMS]
-                        + module_theorems("JediVerif.Properties.C04b", "Jedi.C04") + module_theorems("JediVerif.Properties.C04c", "Jedi.C04"),
+                        + module_theorems("JediVerif.Properties.C04b", "Jedi.C04") + module_theorems("JediVerif.Properties.C04c", "Jedi.C04") + module_theorems("JediVerif.Properties.C04d", "Jedi.C04"),
     "streams": lambda seed, tier: [
         {"cfg": c, "name": "tower", "lines": no_alias(gen("tower", seed, 8 if tier == "quick" else 40, tier))}
         for c in cfgs(tier, ["asm"], ["asm", "asm+nobmi2", "asm-clang", "portable64", "portable32"])],
     "hypotheses": [],
-    "not_modelled": "Fq2 Legendre/sqrt are theorems in C09b; byte I/O of tower elements and the generic exponentiate are compared with the Spec by the correspondence only",
+    "not_modelled": "nothing of fq2/fq6/fq12*.cpp is left to the correspondence alone: byte I/O, the generic exponentiate, Fq2 norm/Legendre/square_root are models run by the judge and theorems in C04d (the Fq6/Fq12 instantiations of exponentiate occur only in the repo's tests and are not run against the code)",
 }
 C04_THEOREMS = [
     "Jedi.C04.fq2_mul", "Jedi.C04.fq2_sqr", "Jedi.C04.fq2_mulNonres", "Jedi.C04.fq6_mul", "Jedi.C04.fq6_sqr",
@@ -240,8 +240,8 @@ PROPS["C13"]["filter"] = lambda l: l.startswith(("wk_sign", "wk_verify", "wk_sig
 PROPS["C14"]["filter"] = lambda l: l.startswith(("wk_adjust", "wk_precompute", "wk_encryptpre", "wk_signpre", "wk_verifypre"))
 PROPS["C15"] = {
     "translators": ["consts", "layout2lean"],
-    "lean_targets": prop_modules("C15", extra=("JediVerif.Properties.C15b",)),
-    "theorems": lambda: thms("C15", extra=(("JediVerif.Properties.C15b", "Jedi.C15"),)),
+    "lean_targets": prop_modules("C15", extra=("JediVerif.Properties.C15b", "JediVerif.Properties.C15c")),
+    "theorems": lambda: thms("C15", extra=(("JediVerif.Properties.C15b", "Jedi.C15"), ("JediVerif.Properties.C15c", "Jedi.C15"))),
     "streams": stream_set([("marshal", 4), ("lqibe", 4)], ["asm"], ["asm", "portable64", "portable32", "asan"], scale=1),
     "filter": lambda l: not l.startswith("wk_len") and not l.startswith(("lq_encrypt", "lq_decrypt", "lq_keygen")),
 }
